@@ -18,6 +18,8 @@ def cases(rng, quick, gr):
             "3-1.5j", "+2j", "-0.5e1J", "1e1+2e-1j", "0j", "pi", "4.0e-1-2E+0j"]
     for lit in lits:
         yield {"tag": "literal", "text": HDR + "Op(%s, -%s, +%s, (%s)) | 0\n" % (lit, lit, lit, lit)}
+        # a sign that is a token of its own (blank before the literal): it negates the WHOLE literal, both parts of a complex one
+        yield {"tag": "literal-under-spaced-sign", "text": HDR + "Op(- %s, 3 * - %s, -  %s, 2 - - %s, -(%s)) | 0\n" % (lit, lit, lit, lit, lit)}
     # (2) precedence / associativity matrix: a op1 b op2 c, with optional sign, over atoms that keep everything defined
     ops = ["+", "-", "*", "/", "**"]
     atoms = ["2", "3", "1.5", "n", "x", "A[4]", "(1+1)", "2j"]
